@@ -164,6 +164,23 @@ Proof.
   - intros a b c. rewrite !ver_gt_iff, ver_ge_iff. lia.
 Qed.
 
+Lemma ver_pcmp_nan_laws : porder_laws ver_pcmp_nan.
+Proof.
+  destruct ver_pcmp_laws as [I T1 T2].
+  assert (G : forall a b, spec_replace_on (ver_pcmp_nan a b) = true ->
+              ver_nan a = false /\ ver_nan b = false /\ ver_pcmp_nan a b = ver_pcmp a b).
+  { intros a b. unfold ver_pcmp_nan. destruct (ver_nan a), (ver_nan b); cbn; try discriminate; auto. }
+  assert (G' : forall a b, ver_pcmp_nan a b = Some Gt ->
+              ver_nan a = false /\ ver_nan b = false /\ ver_pcmp_nan a b = ver_pcmp a b).
+  { intros a b. unfold ver_pcmp_nan. destruct (ver_nan a), (ver_nan b); cbn; try discriminate; auto. }
+  constructor.
+  - intros a. unfold ver_pcmp_nan. destruct (ver_nan a); cbn; [discriminate|apply I].
+  - intros a b c H1 H2. destruct (G _ _ H1) as (Na & Nb & E1). destruct (G _ _ H2) as (_ & Nc & E2).
+    rewrite E1 in H1. rewrite E2 in H2. unfold ver_pcmp_nan. rewrite Na, Nc. cbn. eapply T1; eauto.
+  - intros a b c H1 H2. destruct (G' _ _ H1) as (Na & Nb & E1). destruct (G _ _ H2) as (_ & Nc & E2).
+    rewrite E1 in H1. rewrite E2 in H2. unfold ver_pcmp_nan. rewrite Na, Nc. cbn. eapply T2; eauto.
+Qed.
+
 Lemma ver_cmp_flip a b : ver_cmp a b = CompOpp (ver_cmp b a).
 Proof.
   destruct a as [a1 a2], b as [b1 b2]. unfold ver_cmp. cbn [fst snd].
